@@ -115,6 +115,8 @@ def generate(rng, tier):
     add(reglib.gen_conflict_history, 220 * k, "conflict")
     add(reglib.gen_unregister_history, 120 * k, "unreg")
     add(reglib.gen_two_daemon_history, 50 * k, "two")
+    add(reglib.gen_shared_record_query_history, 120 * k, "sharedq")
+    add(reglib.gen_shared_host_history, 60 * k, "sharedhost")
     add(reglib.gen_iface_toggle_history, 260 * k, "toggle")
     add(reglib.gen_prefix_tiebreak_history, 40 * k, "prefix")
     # model-free: names with non-ASCII cased letters, judged on the trace (reglib.project_na)
